@@ -47,9 +47,12 @@ CHECKS = {
    note=TB + "Cross-process behaviour (hash seeds) is a runtime fact outside Gallina: exercised by running the implementation under each seed. dump_mem() ordering (ExprMem.__lt__ compares id()) is not covered.",
    design='4/C13', category='other'),
  'C06': dict(
-   technique='Gallina model of eval_abs.eval_expr (all seven node kinds, constant folding per operator, same-address memory cells) tied by exact-tree correspondence; substitution property evaluated under valuations on disagreement',
+   technique='Coq proof by induction over fuel (through the simplifier theorem of C05) that the model of eval_expr is sound substitution on register-only states and fragment-1 expressions; Gallina model of eval_abs.eval_expr (all seven node kinds) tied by exact-tree correspondence',
    text=("Model EvalAbs.v mirrors eval_expr / eval_ExprOp+deal_op / eval_ExprCond / eval_ExprSlice / eval_ExprCompose / eval_ExprMem. Tie: exact result trees on (state, expression) pairs mixing constant, "
-         "symbolic and absent bindings, all operators at arity 2..5 with constant operands, conditions/concatenations whose parts become constants. Universal substitution theorem is work in progress, not yet claimed."),
+         "symbolic and absent bindings, all operators at arity 2..5 with constant operands, conditions/concatenations whose parts become constants. "
+         "Theorem (props/C06.v, closed): for register-only states whose bindings map non-terminal identifiers to well-formed expressions of their width, every fragment-1 expression conforming to a name signature and every result of eval_expr: the result is well formed, "
+         "has the argument's width, and in EVERY concrete state, memory and operator interpretation evaluates to the argument's value in the state where each bound identifier takes its binding's value (terminal identifiers untouched, memory read at the substituted address). "
+         "Not proved: states with written memory cells, slices/concatenations, shifts/rotates (decided by the tie)."),
    note=TB + "Modelled, not verified: EvalAbs.v. States follow the init_* discipline (bindings over free symbols, already evaluated); is_eval/is_term flags and eval_cache are outside this model (C12).",
    design='4/C06', category='other'),
  'C07': dict(
